@@ -149,8 +149,8 @@ def fmtHlObs (pfx : String) : HalfLock.Obs → String
   | .fetchAdd loc v => s!"fetch_add {pfx}{loc} = {v}"
   | .fetchSub loc v => s!"fetch_sub {pfx}{loc} = {v}"
   | .swap loc n o => s!"swap {pfx}{loc} {n} = {o}"
-  | .mutexLock => s!"mutex_lock {pfx}mutex"
-  | .mutexUnlock => s!"mutex_unlock {pfx}mutex"
+  | .mutexLock p => s!"mutex_lock {pfx}mutex" ++ (if p then " poisoned" else "")
+  | .mutexUnlock p => s!"mutex_unlock {pfx}mutex" ++ (if p then " panicking" else "")
   | .alloc i => s!"alloc {i}"
   | .free i => s!"free {i}"
   | .spin => "spin"
@@ -189,7 +189,7 @@ def hlStep (d : HlDrv) (line : String) : HlDrv × String :=
     | some t, some n => (hlAddCmd d t (.read n), "")
     | _, _ => (d, "bad-op")
   | [t, "write", b] => match (t.drop 1).toString.toNat? with
-    | some t => (hlAddCmd d t (.write (b == "1")), "")
+    | some t => (hlAddCmd d t (.write (b != "0") (b == "2")), "")
     | none => (d, "bad-op")
   | "schedule" :: rest =>
     let sched := rest.filterMap (·.toNat?)
